@@ -73,6 +73,11 @@ const (
 	// Unsupported is anything that touches a root file and cannot be modelled
 	// (or whose outcome is unknown). Detail says what.
 	Unsupported
+	// FsyncStart marks the ENTRY of an fsync(2)/fdatasync(2) on a root file that did not complete on
+	// the same trace line (another thread's syscall was reported in between). An fsync only makes
+	// durable what had been written before it was called: the replayer remembers the file length
+	// at FsyncStart and the matching Fsync makes exactly that many bytes durable.
+	FsyncStart
 
 	numKinds
 )
@@ -88,6 +93,7 @@ var kindNames = [...]string{
 	Unlink:      "unlink",
 	Marker:      "marker",
 	Unsupported: "unsupported",
+	FsyncStart:  "fsync-start",
 }
 
 func (k Kind) String() string {
@@ -138,6 +144,8 @@ func (e Event) String() string {
 		return fmt.Sprintf("write %s +%d @%d", e.Path, len(e.Data), e.Offset)
 	case Fsync:
 		return "fsync " + e.Path
+	case FsyncStart:
+		return "fsync-start " + e.Path
 	case DirSync:
 		return "dirsync"
 	case Truncate:
